@@ -68,22 +68,24 @@ def main():
         "seed": int(seed),
         "level": LEVEL[prop],
         "coverage": {
-            "evaluations": runs,
-            "distinct_nontrivial": distinct,
-            "rule": "one evaluation = one simulated run (seeded boot state + operation/fault history, run seed = mix(VERIF_SEED, property, index)); "
-                    "the count includes the slider-lattice pass (one boot per (slider square, relevant-blocker subset) pair, 107 648 per configuration, "
-                    "at most two operations each: enumeration of boot states, not simulation proper). "
+            "evaluations": evals,
+            "distinct_nontrivial": min(distinct, evals),
+            "rule": "one evaluation = one evaluation of this property's per-state oracle at a state of a simulated run "
+                    "(boot state or state after an operation / fault), summed over all configurations; the runs themselves are counted in simulated_runs "
+                    "(run seed = mix(VERIF_SEED, property, run index); each configuration gets its own slice of run indices) and, separately, "
+                    "in lattice_boots (the lattice pass: one boot per (slider square, relevant-blocker subset) and per (king, aligned slider, blocker variant), "
+                    "at most two operations each - enumeration of boot states, not simulation proper). "
                     "distinct_nontrivial = exact number of distinct positions (placement, side, rights, EP file; clocks stripped; 64-bit FNV of the model state) "
-                    "at which this property's oracle was evaluated and which are not the run's boot position, counted in the magic/release process only "
+                    "at which the oracle was evaluated and which are not the run's boot position, counted in the magic/release process only "
                     "(a lower bound for the union over configurations). Oracle: " + ORACLE[prop],
-            "samples": samples or ["(no sample recorded)"],
-            "simulated_runs": runs,
-            "of_which_slider_lattice_boots": {f'{p["backend"]}/{p["profile"]}': p.get("lattice_runs", 0) for p in parts},
+            "samples": samples,
+            "simulated_runs": runs - sum(p.get("lattice_runs", 0) for p in parts),
+            "lattice_boots": {f'{p["backend"]}/{p["profile"]}': p.get("lattice_runs", 0) for p in parts},
             "simulated_steps": steps,
             "simulated_plies": sum(p["plies"] for p in parts),
             "oracle_evaluations": evals,
-            "runs_per_hour": int(runs / wall_f * 3600) if wall_f > 0 else 0,
-            "seeds": {"base": int(seed), "run_indices_per_configuration": {f'{p["backend"]}/{p["profile"]}': [p.get("first_index", 0), p.get("first_index", 0) + p["runs"]] for p in parts}},
+            "runs_per_hour": int((runs - sum(p.get("lattice_runs", 0) for p in parts)) / wall_f * 3600) if wall_f > 0 else 0,
+            "seeds": {"base": int(seed), "run_indices_per_configuration": {f'{p["backend"]}/{p["profile"]}': [p.get("first_index", 0), p.get("first_index", 0) + p.get("runs_requested", p["runs"])] for p in parts}},
             "simulated_time": "logical: plies / operations (the library has no clock); see simulated_plies, simulated_steps",
             "faults_injected": faults,
             "corruption_operators_fired": ops,
@@ -104,7 +106,9 @@ def main():
     }
     zero = sorted(k for k, v in probes.items() if v == 0)
     json.dump(ev, open(out, "w"), indent=1, ensure_ascii=False)
-    print(f"evidence written: {out} (runs={runs} steps={steps} distinct={distinct} violations={violations})")
+    if not samples:
+        raise SystemExit("no sample trace recorded")
+    print(f"evidence written: {out} (runs={runs} steps={steps} oracle_evaluations={evals} distinct={distinct} violations={violations})")
     if zero:
         print("note: probes at zero:", ", ".join(zero))
 
